@@ -14,7 +14,10 @@ demo=$(ls "$md"/*_test.go 2>/dev/null | head -1)
 place=$(grep -m1 -o "place at: *[^ ]*" "$demo" | sed 's/place at: *//')
 [ -n "$place" ] || place="$(python3 -c "import json;print(json.load(open('$md/meta.json'))['file'].rsplit('/',1)[0])")/$(basename "$demo")"
 pkg="./$(dirname "$place")/"
-run_demo() { mkdir -p "$wt/$(dirname "$place")"; cp "$demo" "$wt/$place"; (cd "$wt" && env ${DEMO_ENV:-} go test -vet=off -count=1 -tags verif -ldflags=-checklinkname=0 "$pkg" -run "$(grep -o 'func Test[A-Za-z0-9_]*' "$demo" | sed 's/func //' | paste -sd'|')" 2>&1 | tail -5); rc=$?; rm -f "$wt/$place"; rmdir "$wt/$(dirname "$place")" 2>/dev/null; return $rc; }
+# package app's own TestMain never calls m.Run(): a demonstration placed in app/ is run in file-list mode (the
+# package's non-test files plus the demonstration), which leaves that TestMain out
+target() { if [ "$(dirname "$place")" = "app" ]; then (cd "$wt" && go list -tags verif -f '{{range .GoFiles}}app/{{.}} {{end}}' ./app/; echo "$place"); else echo "$pkg"; fi; }
+run_demo() { mkdir -p "$wt/$(dirname "$place")"; cp "$demo" "$wt/$place"; (cd "$wt" && env ${DEMO_ENV:-} go test -vet=off -count=1 -tags verif -ldflags=-checklinkname=0 $(target) -run "$(grep -o 'func Test[A-Za-z0-9_]*' "$demo" | sed 's/func //' | paste -sd'|')" 2>&1 | tail -5); rc=$?; rm -f "$wt/$place"; rmdir "$wt/$(dirname "$place")" 2>/dev/null; return $rc; }
 echo "== demonstration WITHOUT patch (must pass)"; out=$(run_demo); echo "$out" | tail -2; echo "$out" | grep -q "^ok" || { echo "FAIL: demo does not pass on clean tree"; exit 1; }
 git apply "$md/patch.diff" || { echo "FAIL: patch does not apply"; exit 1; }
 go build ./... 2>&1 | grep -v "memsize\|chains/bitcoin/test\|cmd/olfullnode\|^#" | head -5
